@@ -11,5 +11,7 @@ int main(int argc, char** argv)
   tg.push_back({"cg", [](Tape& t, Ctx& c) { target<G_CG, double, LocalBE>(t, c, {K_PCG, K_PCR, K_PMR, K_CHEB, K_PCGNR}, {4, 2, 2, 2, 2}, maxn()); }, 96, 2, 60000});
   // thorough tier: same decoder, systems up to n = 120
   tg.push_back({"cg_big", [](Tape& t, Ctx& c) { target<G_CG, double, LocalBE>(t, c, {K_PCG, K_PCR, K_PMR, K_CHEB, K_PCGNR}, {4, 2, 2, 2, 2}, 120); }, 96, 3, 120000});
+  // the practice of tutorial_06_global: unit filter, system matrix left unfiltered, convergence claimed (the solver's own filter_def/filter_cor calls carry the constraints)
+  tg.push_back({"cg_unfilt", [](Tape& t, Ctx& c) { c07::force_bits = 7; target<G_CG, double, LocalBE>(t, c, {K_PCG, K_PCR, K_PMR, K_CHEB, K_PCGNR}, {4, 2, 2, 2, 2}, maxn()); c07::force_bits = 0; }, 96, 2, 60000});
   return main_impl(argc, argv, tg);
 }
